@@ -22,6 +22,20 @@ def gate(name: str) -> dict:
         return g
 
 
+_starts: dict[str, int] = {}
+
+
+def started(name: str) -> None:
+    """First statement of every generated test function: how often was it entered?"""
+    with _lock:
+        _starts[name] = _starts.get(name, 0) + 1
+
+
+def starts(name: str) -> int:
+    with _lock:
+        return _starts.get(name, 0)
+
+
 def point(name: str) -> None:
     g = gate(name)
     g["thread"] = threading.current_thread()
@@ -54,3 +68,4 @@ def nap() -> None:
 def reset() -> None:
     with _lock:
         _gates.clear()
+        _starts.clear()
